@@ -66,6 +66,7 @@ struct Trace<'a> {
     log: Vec<String>,
     dead_end: bool,
     sql_broken: bool,
+    last_skew: u32,
 }
 
 fn state_digest(s: &Snap) -> serde_json::Value {
@@ -362,12 +363,20 @@ impl<'a> Trace<'a> {
     }
 
     fn advance(&mut self) -> Option<AdvanceStep> {
-        let scanned_t = self.store.world.scanned + 1;
+        // now and then the caller's scanned target runs AHEAD of the height the store's answers rest
+        // on (targets computed before a rollback, max-scanned vs fully-scanned across a scan gap)
+        let skew = if self.rng.gen_range(0..100) < 12 { self.rng.gen_range(1..6) } else { 0 };
+        if skew > 0 {
+            self.sh.r.count("advance_calls_with_caller_ahead_of_store", 1);
+        }
+        self.last_skew = skew;
+        let scanned_t = self.store.world.scanned + 1 + skew;
         let est = self.pick_estimate();
         let targets = DuenessTargets::new(bh(scanned_t), bh(est));
         let eff = u32::from(targets.effective());
         let before = snap(&self.state);
         self.store.world.queries.borrow_mut().clear();
+        self.store.world.answer_heights.borrow_mut().clear();
         let writes0 = self.store.writes;
         let mut rng = self.rng.clone();
         let cfg = self.cfg;
@@ -428,6 +437,34 @@ impl<'a> Trace<'a> {
                 let first_is_not_candidate = b.map(|t| t.rank == 3 || t.report.is_some()).unwrap_or(false);
                 if first_is_not_candidate && counts[id] < 2 {
                     cand_answers.remove(id);
+                }
+            }
+        }
+
+        // a broadcast-failure report is testimony about a tip the wallet may not have reached: it
+        // may only be discharged on an answer of the STORE that rests at or above the reported tip
+        if !model::terminal(before.status) {
+            let heights = self.store.world.answer_heights.borrow().clone();
+            for b in &before.txs {
+                let Some(reported) = b.report else { continue };
+                let still = after.tx(b.id).and_then(|t| t.report);
+                if still.is_none() {
+                    self.sh.r.count("failure_reports_discharged", 1);
+                    let first = heights.iter().find(|(id, _)| *id == b.id).map(|(_, h)| *h);
+                    if skew > 0 {
+                        self.sh.r.count("failure_reports_discharged_with_caller_ahead_of_store", 1);
+                    }
+                    if first.is_none() {
+                        // cleared by another path (the row was observed mined, rebuilt, ...): no adjudication took place
+                        self.sh.r.count("failure_reports_cleared_without_adjudication", 1);
+                    } else if first.map_or(false, |h| h < reported) {
+                        viols.push(Viol {
+                            class: "C18:report:discharged-without-store-evidence-at-the-reported-tip".into(),
+                            detail: format!("tx {}: failure report at tip {reported} discharged although the store's answer rests on {first:?} (caller's scanned target {scanned_t})", b.id),
+                        });
+                    }
+                } else {
+                    self.sh.r.count("failure_reports_kept", 1);
                 }
             }
         }
@@ -746,6 +783,11 @@ impl<'a> Trace<'a> {
     }
 
     fn act_on(&mut self, step: &AdvanceStep) {
+        // a step computed for a scanned target ahead of the store is only observed, not acted on
+        // (the consumer-side actions below assume the unskewed target)
+        if self.last_skew > 0 {
+            return;
+        }
         match step {
             AdvanceStep::Prove { transactions } => {
                 let n = transactions.len();
@@ -1599,6 +1641,7 @@ fn main() {
                 log: vec![],
                 dead_end: false,
                 sql_broken: false,
+                last_skew: 0,
             };
             t.run(max_events);
         }
